@@ -416,6 +416,28 @@ def call_name(c: ast.Call) -> str:
     return norm(c.func)
 
 
+def _local_call_alias(name: ast.Name):
+    """`x` -> the call `g()` when, in the enclosing function, x is stored exactly once and that store is
+    `x = g()` (a zero-argument accessor such as state()): `x.flags` then reads like `g().flags`."""
+    fn = name
+    while fn is not None and not isinstance(fn, (ast.FunctionDef, ast.AsyncFunctionDef, ast.Lambda)):
+        fn = parent(fn)
+    if fn is None or isinstance(fn, ast.Lambda):
+        return None
+    if name.id in {a.arg for a in fn.args.posonlyargs + fn.args.args + fn.args.kwonlyargs}:
+        return None
+    stores = []
+    for x in ast.walk(fn):
+        if isinstance(x, ast.Name) and x.id == name.id and isinstance(x.ctx, (ast.Store, ast.Del)):
+            stores.append(x)
+    if len(stores) != 1:
+        return None
+    st = parent(stores[0])
+    if isinstance(st, ast.Assign) and len(st.targets) == 1 and st.targets[0] is stores[0] and isinstance(st.value, ast.Call) and not st.value.args and not st.value.keywords and isinstance(st.value.func, (ast.Name, ast.Attribute)):
+        return st.value
+    return None
+
+
 def attr_chain(e: ast.expr) -> Optional[List[str]]:
     """['state()', 'update_flags', 'fix'] for state().update_flags.fix; None if not a chain."""
     parts: List[str] = []
@@ -424,6 +446,10 @@ def attr_chain(e: ast.expr) -> Optional[List[str]]:
             parts.append(e.attr)
             e = e.value
         elif isinstance(e, ast.Name):
+            al = _local_call_alias(e)
+            if al is not None:
+                e = al
+                continue
             parts.append(e.id)
             break
         elif isinstance(e, ast.Call) and not e.args and not e.keywords:
